@@ -87,10 +87,24 @@ def observe_types(ab, fs):
             {'area': 'types', 'op': 'prim', 'v': ab, 'out': out, 'out2': out2, 'same': same})
 
 
+def _classes(ab):
+    out = {ab['cls']}
+    for x in ab['items'] or []:
+        out |= _classes(x)
+    return out
+
+
 def types_case(op, ab, **kw):
-    c = {'op': op, 'cls': ab['cls'], 'idx': ab['idx'], 'val': ab['val'][0], 'n': len(ab['items'] or []), 'v': ab}
+    """matchable keys: the predicate / function, the class of the object, whether a np.longdouble / np.timedelta64 occurs in it"""
+    cl = _classes(ab)
+    c = {'op': op, 'kind': 'plural' if op in PLURALS else 'singular' if op.startswith('is_') else '', 'cls': ab['cls'], 'idx': ab['idx'],
+         'val': ab['val'][0], 'n': len(ab['items'] or []), 'longdouble': int('np.longdouble' in cl), 'timedelta': int('np.timedelta64' in cl), 'v': ab}
     c.update(kw)
     return c
+
+
+PLURALS = {'is_nones', 'is_bools', 'is_ints', 'is_floats', 'is_nums', 'is_strs', 'is_dates', 'is_nans', 'is_dicts', 'is_lists', 'is_tuples',
+           'is_iterables', 'is_arrs', 'is_pds', 'is_tss'}
 
 
 def s2c_types(ctx, cases, fs, log):
@@ -312,11 +326,14 @@ def items_case(area, c):
         k.update(fn=c['fn'], keys=c['keys']['sp'], nkeys=len(c['keys']['k']), args=c['args']['sp'], kwargs=c['kwargs']['sp'])
     elif area == 'getattrs':
         k.update(base=c['base']['sp'], want=c['want']['sp'], defaults=len(c['d']))
-    elif area == 'relabel':
-        k.update(form=c['form']['sp'], nkeys=len(c['keys']), nkw=len(c['kw']))
-    elif area == 'relabel_dict':
-        k.update(form=c['form']['sp'], nkeys=len(c['items']), nkw=len(c['kw']), cls=c['cls'],
-                 strkeys=int(all(isinstance(i[0], str) for i in c['items'])))
+    elif area in ('relabel', 'relabel_dict'):
+        n = len(c['keys'] if area == 'relabel' else c['items'])
+        f = c['form']
+        name = f['s'] if f['sp'] == 'affix' else f['names'][0] if f['sp'] in ('names', 'pos') and f['names'] else '_'
+        # ONE key and ONE new name without an underscore at either end
+        k.update(form=f['sp'], nkeys=n, nkw=len(c['kw']), one_plain_name=int(n == 1 and f['sp'] in ('affix', 'names', 'pos') and not name.startswith('_') and not name.endswith('_')))
+        if area == 'relabel_dict':
+            k['cls'] = c['cls']
     elif area == 'dict_invert':
         k.update(n=len(c['items']))
     elif area == 'as_list':
@@ -550,6 +567,130 @@ def run_items(ctx, log):
     s2c_items(ctx, cases, log)
     c2s_items(ctx, 2500 if ctx.quick else 30000, log)
 
+
+# =========================================================================================================
+# X07-c  signatures
+# =========================================================================================================
+SIG_CLAUSE = {'defaults': 'argspec_defaults_value', 'defaults_partial': 'argspec_defaults_value', 'required': 'argspec_required_value',
+              'getargs': 'getargs_value', 'add': 'argspec_add_value', 'update': 'argspec_update_value', 'k2a': 'kwargs2args_value',
+              'partialize': 'partialize_call'}
+
+
+def observe_sig(area, c):
+    o = {'area': 'sig', 'op': area, 'c': c}
+    o.update(xa.run_sig(area, c))
+    return o
+
+
+def sig_case(area, c):
+    sg = c['sig']
+    k = {'op': area, 'c': c, 'npos': len(sg['pos']), 'ndef': sg['ndef'], 'varargs': int(sg['varargs']), 'varkw': int(sg['varkw']),
+         'kwonly': len(sg['kwonly']), 'has_required_kwonly': int(any(not d for d in sg['kwdef']))}
+    if area == 'add':
+        k['adds_kwonly_name'] = int(any(n in sg['kwonly'] for n, _ in c['upd']))
+    if area == 'k2a':
+        named = [n in [x[0] for x in c['call']['kw']] for n in sg['pos']]
+        k['gap'] = int(any(b and not all(named[:i]) for i, b in enumerate(named)))      # a named parameter after an unnamed one
+        k['positional'] = len(c['call']['pos'])
+    if area in ('partialize', 'defaults_partial'):
+        k['pre'] = int(c['pre']['on']); k['pre_pos'] = len(c['pre']['pos'])
+    if area == 'partialize':
+        k['nargs'] = len(c['args'])
+    return k
+
+
+def s2c_sig(ctx, cases, log):
+    for k, e in enumerate(cases):
+        area, c, want = e['area'], fix_case(e['area'], e['c']), fix_case(e['area'], e['want'])
+        o = observe_sig(area, c)
+        ctx.evals += 1; ctx.traces += 1
+        case = sig_case(area, c)
+        bad = []
+        if area in ('defaults', 'defaults_partial'):
+            ok = o['out'][0] == 'ok' and _pairs(o['out'][1]) == _pairs(want['out'])
+        elif area == 'required':
+            ok = o['out'] in want['out']
+        elif area == 'getargs':
+            ok = o['out'] == ['ok', want['out']] or not want['indomain']
+        elif area in ('add', 'update'):
+            if o['after'] != want['before']:
+                bad.append(('argument_changed', {'after': o['after']}))
+            ok = o['out'] == ['ok', want['out']] and (area == 'add' or o['cls'] == 'FullArgSpec')
+        elif area == 'k2a':
+            if not want['indomain']:
+                ok = True
+            else:
+                if o['after'] != c['call']['kw']:
+                    bad.append(('argument_changed', {'after': o['after']}))
+                ok = o['out'][0] == 'ok' and o['out'][1] in want['out']
+        else:
+            if o['ispartial'] != 'T':
+                bad.append(('partialize_not_a_partial', {'observed': o['out']}))
+            ok = o['out'] in want['out']
+        if not ok:
+            bad.append((SIG_CLAUSE[area], {'expected': want['out'], 'observed': o['out']}))
+        for clause, detail in bad:
+            report(ctx, clause, case, detail)
+        log.add(o, case)
+        if c['sig']['kwonly'] or area in ('partialize', 'k2a', 'defaults_partial'):
+            ctx.note((area, k))
+        if k % 3001 == 0:
+            ctx.sample({'sig_case': {'area': area, 'c': c, 'want': want}})
+
+
+def rand_sig_case(rng):
+    names = ['a', 'b', 'c']
+    npos = rng.choice([0, 1, 2, 2, 3, 3])
+    nk = rng.choice([0, 0, 1, 2])
+    sig = {'pos': names[:npos], 'ndef': rng.randint(0, npos), 'varargs': rng.random() < 0.3, 'kwonly': ['k', 'm'][:nk],
+           'kwdef': [rng.random() < 0.5 for _ in range(nk)], 'varkw': rng.random() < 0.3}
+    def kws(pool, pmax):
+        return [[n, ["i", rng.randint(0, 99)]] for n in sorted(rng.sample(pool, rng.randint(0, min(pmax, len(pool)))))]
+    def vals(nmax):
+        return [["i", rng.randint(100, 199)] for _ in range(rng.randint(0, nmax))]
+    area = rng.choice(['defaults', 'defaults_partial', 'required', 'getargs', 'add', 'update', 'k2a', 'k2a', 'partialize', 'partialize', 'partialize'])
+    if area in ('defaults', 'required'):
+        return area, {'sig': sig}
+    if area == 'defaults_partial':
+        np_ = rng.randint(0, min(1, npos))
+        free = [n for n in sig['pos'][np_:] + sig['kwonly']]
+        return area, {'sig': sig, 'pre': {'on': True, 'pos': vals(0)[:0] + [["i", 150]] * np_, 'kw': kws(free, 2)}}
+    if area == 'getargs':
+        return area, {'sig': sig, 'n': rng.randint(0, 3)}
+    if area == 'add':
+        return area, {'sig': sig, 'upd': [[n, rng.choice([["i", 0], ["n", 0], ["s", "x"]])] for n in rng.sample(['a', 'b', 'k', 'm', 'q', 'x', 'y', 'z'], rng.randint(0, 3))]}
+    if area == 'update':
+        sig['kwonly'], sig['kwdef'] = [], []
+        f = rng.choice([["args", rng.sample(['a', 'b', 'c', 'q', 'x'], rng.randint(0, 4))], ["defaults", vals(2)], ["varargs", rng.choice(["", "more"])],
+                        ["varkw", rng.choice(["", "rest"])], ["kwonly", rng.sample(['k', 'm'], rng.randint(0, 2))]])
+        return area, {'sig': sig, 'f': f}
+    if area == 'k2a':
+        return area, {'sig': sig, 'call': {'pos': vals(2) if rng.random() < 0.3 else [], 'kw': kws(['a', 'b', 'c', 'k', 'm', 'z', 'y'], 5)}}
+    pre = {'on': False, 'pos': [], 'kw': []}
+    if rng.random() < 0.5:
+        pre = {'on': True, 'pos': vals(2) if rng.random() < 0.5 else [], 'kw': kws(['a', 'b', 'c', 'k', 'm', 'z'], 2)}
+    return area, {'sig': sig, 'pre': pre, 'args': vals(2) if rng.random() < 0.5 else [], 'kwargs': kws(['a', 'b', 'c', 'k', 'm', 'z', 'y'], 3),
+                  'probe': {'pos': vals(2) if rng.random() < 0.5 else [], 'kw': kws(['a', 'b', 'c', 'k', 'm', 'q'], 3)}}
+
+
+def c2s_sig(ctx, n, log):
+    for i in range(n):
+        area, c = rand_sig_case(ctx.rng)
+        o = observe_sig(area, c)
+        ctx.evals += 1
+        log.add(o, sig_case(area, c))
+        if i % 499 == 0:
+            ctx.sample({'sig_observed': {k: o[k] for k in o if k != 'area'}})
+
+
+def run_sig(ctx, log):
+    ctx.mc('MC_AccessSig', 'MC_AccessSig_quick.cfg' if ctx.quick else 'MC_AccessSig_thorough.cfg')
+    # the mechanism model of today's kwargs2args (every named positional parameter is moved) must break the law
+    ctx.mc('MC_AccessSig', 'MC_AccessSig_mech.cfg', must_fail='MechK2ASameCall', coverage=False)
+    cases = ctx.generate('MC_AccessSig', 'MC_AccessSig_gen.cfg' if ctx.quick else 'MC_AccessSig_gent.cfg')
+    s2c_sig(ctx, cases, log)
+    c2s_sig(ctx, 2500 if ctx.quick else 30000, log)
+
 # =========================================================================================================
 def judge(ctx, log):
     """Trace_Access judges every recorded line; a rejected line may name several clauses (joined by ';'), a clause may
@@ -563,7 +704,7 @@ def judge(ctx, log):
             clause, _, what = cl.partition(':')
             case = dict(log.cases[i - 1])
             if what:
-                case['op'] = what
+                case = types_case(what, case['v']) if obs[i - 1]['area'] == 'types' else dict(case, op=what)
             report(ctx, clause, case, {"line": obs[i - 1] if len(json.dumps(obs[i - 1])) < 3000 else '(large)'})
 
 
@@ -574,13 +715,24 @@ def corrupt(obs):
         if o['area'] != CORRUPT:
             continue
         if o['area'] == 'types' and o['op'] == 'row' and o['v']['cls'] == 'int':
-            o['row']['is_str'] = 'T'
+            o['row']['is_str'] = 'T'                      # an int that answers "I am a string"
+            return obs
+        if o['area'] == 'items' and o['op'] == 'getitem' and o['out'][0] == 'i':
+            o['out'] = ['i', o['out'][1] + 1]             # another item than the one that is there
+            return obs
+        if o['area'] == 'sig' and o['op'] == 'partialize' and o['out'][0] == 'ok' and o['out'][1]:
+            o['out'][1][0][1] = ['s', 'forged']           # the first parameter bound to a value nobody passed
             return obs
     raise Machinery('nothing to corrupt for area %r' % CORRUPT)
 
 
 def run(ctx):
     _seen.clear()
+    if os.environ.get('VERIF_X07_ACCEPT_PROPOSED') == '1':
+        # the defects of the unchanged tree found by this check, as PROPOSED known findings (extensions/X07.known.json); not applied
+        # unless asked for: by default they are reported as violations
+        with open(os.path.join(os.path.dirname(os.path.dirname(os.path.abspath(__file__))), 'extensions', 'X07.known.json')) as f:
+            ctx.known = ctx.known + [k for k in json.load(f)['known'] if k['property'] == ctx.pid]
     logging.getLogger('pyg').setLevel(logging.ERROR)          # is_ts warns about every unsorted index it is shown
     log = Log()
     if ONLY:
@@ -589,6 +741,8 @@ def run(ctx):
         run_types(ctx, log)
     if ONLY in ('', 'items'):
         run_items(ctx, log)
+    if ONLY in ('', 'sig'):
+        run_sig(ctx, log)
     judge(ctx, log)
     ctx.rule = ('distinct non-trivial = TLC-enumerated cases with a container / numpy scalar (types), a present default, chain or '
                 'collision (items), a keyword-only parameter or a partial (signatures)')
